@@ -63,15 +63,22 @@ pub struct UpdateFulfillHTLC { pub channel_id: ChannelId, pub htlc_id: u64 }
 pub struct HopId { pub channel_id: ChannelId }
 pub struct PeerState { pub actions_blocking_raa_monitor_updates: BlockerMap }
 // the blocker lists after `b` was registered for channel `k`: b is appended to k's list, every other list is as before
-pub open spec fn registered(m: Map<ChannelId, Blockers>, k: ChannelId, b: RAAMonitorUpdateBlockingAction) -> Map<ChannelId, Blockers> { m.insert(k, listed(m, k).push(b)) }
+// the blocker lists `n` after `b` was registered for channel `k` on top of the lists `m`: k's list has gained exactly b (as a multiset: the position
+// of the new blocker in the list is not part of the property), every other list is as before, and no list was dropped
+pub open spec fn is_registered(n: Map<ChannelId, Blockers>, m: Map<ChannelId, Blockers>, k: ChannelId, b: RAAMonitorUpdateBlockingAction) -> bool {
+    n.dom() =~= m.dom().insert(k) && (forall|o: ChannelId| m.contains_key(o) && o != k ==> #[trigger] n[o] == m[o])
+        && n[k].to_multiset() =~= listed(m, k).to_multiset().insert(b)
+}
 
 //@extract lightning/src/ln/channelmanager.rs :: impl ChannelManager :: fn internal_update_fulfill_htlc
 //@slice R15
     for prev_hop in res.0.previous_hop_data() { $body:straight }
 //@with
     fn hold_next_raa_for_forwarded_claim(peer_state: &mut PeerState, msg: &UpdateFulfillHTLC, prev_hop: &HTLCPreviousHopData) { $body }
+//@at body_start
+    broadcast use vstd::seq_lib::group_to_multiset_ensures;
 //@ensures P C02 a-fulfilled-forwarded-htlc-registers-its-raa-blocker-on-the-downstream-channel-and-keeps-every-blocker-already-there
-    final(peer_state).actions_blocking_raa_monitor_updates.m@ =~= registered(old(peer_state).actions_blocking_raa_monitor_updates.m@, msg.channel_id, blocker_of(*prev_hop)),
+    is_registered(final(peer_state).actions_blocking_raa_monitor_updates.m@, old(peer_state).actions_blocking_raa_monitor_updates.m@, msg.channel_id, blocker_of(*prev_hop)),
 //@mutant blocker_dropped_when_the_channel_already_has_one
     .or_insert_with(Vec::new) .push(RAAMonitorUpdateBlockingAction::from_prev_hop_data(prev_hop));
 //@with
@@ -85,8 +92,10 @@ pub open spec fn registered(m: Map<ChannelId, Blockers>, k: ChannelId, b: RAAMon
     fn hold_next_raa_for_claim_on_live_channel(peer_state: &mut PeerState, chan_id: ChannelId, raa_blocker_opt: Option<RAAMonitorUpdateBlockingAction>) {
         if let Some(raa_blocker) = raa_blocker_opt { $body }
     }
+//@at body_start
+    broadcast use vstd::seq_lib::group_to_multiset_ensures;
 //@ensures P C02 a-claim-on-a-live-channel-registers-its-raa-blocker-and-keeps-every-blocker-already-there
-    raa_blocker_opt is Some ==> final(peer_state).actions_blocking_raa_monitor_updates.m@ =~= registered(old(peer_state).actions_blocking_raa_monitor_updates.m@, chan_id, raa_blocker_opt->Some_0),
+    raa_blocker_opt is Some ==> is_registered(final(peer_state).actions_blocking_raa_monitor_updates.m@, old(peer_state).actions_blocking_raa_monitor_updates.m@, chan_id, raa_blocker_opt->Some_0),
     raa_blocker_opt is None ==> final(peer_state).actions_blocking_raa_monitor_updates.m@ =~= old(peer_state).actions_blocking_raa_monitor_updates.m@,
 //@mutant blocker_list_replaced
     .entry(chan_id) .or_insert_with(Vec::new) .push(raa_blocker);
@@ -100,8 +109,10 @@ pub open spec fn registered(m: Map<ChannelId, Blockers>, k: ChannelId, b: RAAMon
     fn hold_next_raa_for_claim_on_closed_channel(peer_state: &mut PeerState, prev_hop: &HopId, raa_blocker_opt: Option<RAAMonitorUpdateBlockingAction>) {
         if let Some(raa_blocker) = raa_blocker_opt { $body }
     }
+//@at body_start
+    broadcast use vstd::seq_lib::group_to_multiset_ensures;
 //@ensures P C02 a-claim-against-a-closed-channel-registers-its-raa-blocker-and-keeps-every-blocker-already-there
-    raa_blocker_opt is Some ==> final(peer_state).actions_blocking_raa_monitor_updates.m@ =~= registered(old(peer_state).actions_blocking_raa_monitor_updates.m@, prev_hop.channel_id, raa_blocker_opt->Some_0),
+    raa_blocker_opt is Some ==> is_registered(final(peer_state).actions_blocking_raa_monitor_updates.m@, old(peer_state).actions_blocking_raa_monitor_updates.m@, prev_hop.channel_id, raa_blocker_opt->Some_0),
     raa_blocker_opt is None ==> final(peer_state).actions_blocking_raa_monitor_updates.m@ =~= old(peer_state).actions_blocking_raa_monitor_updates.m@,
 //@end
 //@extract lightning/src/ln/channelmanager.rs :: impl ChannelManager :: fn from_channel_manager_data
@@ -113,8 +124,10 @@ pub open spec fn registered(m: Map<ChannelId, Blockers>, k: ChannelId, b: RAAMon
     blocked_peer_state .lock() .unwrap()
 //@with
     blocked_peer_state
+//@at body_start
+    broadcast use vstd::seq_lib::group_to_multiset_ensures;
 //@ensures P C02,C10 on-reload-the-raa-blocker-of-a-queued-completion-action-is-registered-again-and-keeps-every-blocker-already-there
-    final(blocked_peer_state).actions_blocking_raa_monitor_updates.m@ =~= registered(old(blocked_peer_state).actions_blocking_raa_monitor_updates.m@, *blocked_channel_id, *blocking_action),
+    is_registered(final(blocked_peer_state).actions_blocking_raa_monitor_updates.m@, old(blocked_peer_state).actions_blocking_raa_monitor_updates.m@, *blocked_channel_id, *blocking_action),
 //@mutant reload_registers_under_the_wrong_channel
     .entry(*blocked_channel_id)
 //@with
